@@ -211,6 +211,10 @@ func ModelConn(cfg SvcConfig, frames [][]byte) (exp []ExpFrame, inv []ExpInv, al
 				case "reply":
 					if op.Continues && !wc.More {
 						ok = false
+					} else if op.Go == "nan" {
+						// parameters without a JSON encoding: nothing may be written; the attempt is reported to the handler
+						// (for a oneway call nothing is written either way and the result is not fixed by any statement)
+						ok, dc = false, wc.Oneway
 					} else {
 						f := ExpFrame{Kind: "reply", Continues: op.Continues}
 						if op.P != nil && string(op.P) != "null" {
@@ -226,6 +230,10 @@ func ModelConn(cfg SvcConfig, frames [][]byte) (exp []ExpFrame, inv []ExpInv, al
 						} else {
 							cls = "refuse"
 						}
+					}
+					if cls == "accept" && op.Go == "nan" {
+						cls = "refuse"
+						dc = wc.Oneway
 					}
 					switch cls {
 					case "accept":
@@ -258,7 +266,7 @@ func ModelConn(cfg SvcConfig, frames [][]byte) (exp []ExpFrame, inv []ExpInv, al
 				}
 				e.Results = append(e.Results, ok)
 				e.DontCare = append(e.DontCare, dc)
-				if op.Ret {
+				if op.Ret && op.Go != "nan" {
 					if !ok {
 						e.RetErr = true
 						dead = true
